@@ -33,6 +33,9 @@ CHECKS["C05"] = ("abstract interpretation of the position-grid kernels over an a
 CHECKS["C09"] = ("abstract interpretation of the full-grid array builder, len and index helpers with symbolic sizes (row-index polynomial of every store, mixed-radix digits of the position index), order-kind/structural rule for the first-occurrence de-duplication, column-split agreement across writer and readers",
     "Row layout n = pos*n_b + rot with pos = t*n_o + o, the stored position/quaternion values, len, n mod n_b and n div n_b are derived as exact polynomials for all sizes; decomposition order, column splits and the consumer's unpacking order are decided structurally. Rounding collisions at 8 decimals are not decided.", "6 C09")
 
+CHECKS["C02"] = ("abstract interpretation of FullGrid._get_N_N / get_total_volumes over the abstract grid object (symbolic sizes and factor): aligned emission lists with row/column index polynomials (LAYOUT/MIRROR), factor power per family (DEG), periodic block list identity, plus FOLD/TRUTH rules on the antipodal fold of the rotation block",
+    "Composition of the full-grid adjacency/border/distance matrices and of the 6D volumes from position and rotation geometry is derived symbolically for all sizes (n_b>=4 and n_b=1) and compared with the property: index maps, stored values, factor powers, block placement, shapes, cell order; the rotation block must be the folded half-sphere matrix whose antipode map is total. Positivity/finiteness and the value-dependent `if el:` filter are not decided.", "6 C02")
+
 NOT_APPLICABLE = {
     "C06": "Cartesian Voronoi cell geometry is produced by qhull and floating-point predicates (polygon vertex ordering, F2); no static abstract domain in reach separates the failing coordinate configurations; the one structural clause is too thin to claim the property (DESIGN.md section 6, C06).",
     "C07": "distinctness/separation/hemisphere membership of computed coordinates are numerical facts; the row-count and unit-norm clauses are already run-time assertions, so a static restatement would only test the presence of those asserts (DESIGN.md section 6, C07).",
